@@ -534,12 +534,14 @@ class MQTTProtocol(MQTTBaseProtocol):
         '''
         Refills the Publisher transmission window from the queue 
         '''
-        cnx = self.addr
-        N = min(self._window - len(self.factory.windowPublish[cnx]), len(self.factory.queuePublishTx[cnx]))
-        for i in range(0,N):
-            request = self.factory.queuePublishTx[cnx].popleft()
+        cnx    = self.addr
+        queue  = self.factory.queuePublishTx[cnx]
+        window = self.factory.windowPublish[cnx]
+        # QoS 0 messages need no window slot, QoS 1 & 2 wait for a free one
+        while len(queue) and (not queue[0].msgId or len(window) < self._window):
+            request = queue.popleft()
             if request.msgId:   # only form QoS 1 & 2
-                self.factory.windowPublish[cnx][request.msgId] = request
+                window[request.msgId] = request
             self._retryPublish(request, dup)
 
 
